@@ -150,10 +150,10 @@ func scenario(v variant) *netctl.Scenario {
 				ok, why = g.Converged()
 			}
 			if !ok {
-				cbs, _, _, _ := g.Snapshot()
+				cbs, _, _ := g.Snapshot()
 				x.Violate("not-converged", "live members %v, 2 virtual minutes after the last membership/subscription change: %s; callback log: %s", g.Live(), why, gscen.FormatCBs(cbs, 1<<62))
 			}
-			cbs, _, _, _ := g.Snapshot()
+			cbs, _, _ := g.Snapshot()
 			n := 0
 			gscen.Owners(cbs, func(key, format string, a ...any) {
 				if n == 0 {
